@@ -3,17 +3,18 @@
 snapshot into /verif/harmless/*/meta.json (with the commit the snapshot was taken at)."""
 import json, glob, os, sys
 snap, commit = sys.argv[1].rstrip('/'), sys.argv[2]
+only = set(sys.argv[3:])      # optional: merge these rewrites only
 ROOT = os.path.dirname(os.path.dirname(os.path.abspath(__file__)))
 n = 0
 for m in sorted(glob.glob(snap + '/harmless/*/meta.json')):
     d = json.load(open(m))
     o = d.get('outcome')
     t = ROOT + '/harmless/' + m.split('/')[-2] + '/meta.json'
-    if not o or not os.path.exists(t):
+    if not o or not os.path.exists(t) or (only and m.split('/')[-2] not in only):
         continue
     o = dict(o)
     o['results'] = {p: (v if v == 'quiet' else v.replace(snap, '<snapshot>')) for p, v in o['results'].items()}
-    o['ran_at_commit'] = commit + ' (vp run snapshot of /verif, checks against /repo through a PYTHONPATH shadow copy)'
+    o['ran_at_commit'] = commit + ' (separate working copy or vp run snapshot of /verif at that commit; checks against /repo through a PYTHONPATH shadow copy)'
     dd = json.load(open(t))
     dd['outcome'] = o
     json.dump(dd, open(t, 'w'), indent=1)
